@@ -148,7 +148,7 @@ def s_cfg(secure, proxied):
     simnet.install(k, net)  # tls=False: the real _ssl_socket/_wrap_sni_socket run, on the recording ssl module
     ep = EnvPatch()
     ep.replace(_ssl, FakeSSLModule())
-    ep.replace(real_os, FakeOsMod(real_os, env, {"/env/bundle.pem", "/ca/file.pem"}, {"/env/certs", "/ca/dir"}))
+    ep.os_env(env, {"/env/bundle.pem", "/ca/file.pem"}, {"/env/certs", "/ca/dir"})
     opts = dict(sslopt=sslopt)
     if proxied:
         opts.update(http_proxy_host="proxy.example", http_proxy_port=3128)
@@ -249,7 +249,7 @@ def s_seq(first):
         simnet.install(k, net)
         ep = EnvPatch()
         ep.replace(_ssl, FakeSSLModule())
-        ep.replace(real_os, FakeOsMod(real_os, {}, {"/ca/file.pem"}, set()))
+        ep.os_env({}, {"/ca/file.pem"}, set())
         try:
             ws = websocket.create_connection("wss://origin.example/chat", timeout=5, sslopt=dict(sslopt))
             ws.shutdown()
@@ -293,7 +293,7 @@ def s_shared(kind):
     simnet.install(k, net)
     ep = EnvPatch()
     ep.replace(_ssl, FakeSSLModule())
-    ep.replace(real_os, FakeOsMod(real_os, {}, set(), set()))
+    ep.os_env({}, set(), set())
     try:
         if kind == "redirect":
             ws = websocket.create_connection("wss://first.example/x", timeout=5, sslopt=sslopt)
@@ -374,7 +374,7 @@ def s_pair(a, b):
     simnet.install(k, net)
     ep = EnvPatch()
     ep.replace(_ssl, FakeSSLModule())
-    ep.replace(real_os, FakeOsMod(real_os, {}, {"/ca/file.pem"}, {"/ca/dir"}))
+    ep.os_env({}, {"/ca/file.pem"}, {"/ca/dir"})
     try:
         _connect(websocket, "first.example", a)
         _connect(websocket, "second.example", b)
@@ -405,7 +405,7 @@ def s_threads(a, b):
     simnet.install(k, net)
     ep = EnvPatch()
     ep.replace(_ssl, FakeSSLModule())
-    ep.replace(real_os, FakeOsMod(real_os, {}, {"/ca/file.pem"}, {"/ca/dir"}))
+    ep.os_env({}, {"/ca/file.pem"}, {"/ca/dir"})
     pre = {"A": bool(sx.choice("preemptA", 2)), "B": bool(sx.choice("preemptB", 2))}
     first = sx.choice("first", 2)
 
